@@ -1234,7 +1234,7 @@ class StubBlock:
         return list(self.dens)
 
     def getNuclideNumberDensities(self, names):
-        return [self.dens[n] for n in names]
+        return [self.dens.get(n, 0.0) for n in names]   # a real block answers 0.0 for a nuclide it does not hold
 
     def getMicroSuffix(self):
         return self.suffix
@@ -1685,7 +1685,7 @@ def creator_clauses(lib, ref, suf, comp, lib_type, passed, min_dens, build_scatt
     from armi.nuclearDataIO import xsCollections as xc
     out = []
     nuc_names = list(comp) if passed is None else list(passed)
-    eff = {nm: comp[nm] for nm in nuc_names if comp[nm] > min_dens}
+    eff = {nm: comp[nm] for nm in nuc_names if comp.get(nm, 0.0) > min_dens}
     mc = xc.MacroscopicCrossSectionCreator(buildScatterMatrix=build_scatter, minimumNuclideDensity=min_dens)
     res = call(mc.createMacrosFromMicros, lib, StubBlock(comp, suf), passed, libType=lib_type)
     if res[0] != "ok":
@@ -1798,7 +1798,7 @@ def run_creator(ctx):
                 if rng.random() < 0.3:
                     nuc_names.append(rng.choice(nuc_names))
                 passed = nuc_names
-            eff = {nm: comp[nm] for nm in nuc_names if comp[nm] > min_dens}
+            eff = {nm: comp[nm] for nm in nuc_names if comp.get(nm, 0.0) > min_dens}
             case = dict(libid, suffix=suf, composition=comp, function="createMacrosFromMicros(whole)", libType=lib_type,
                         nucNames=passed, minimumNuclideDensity=min_dens, buildScatterMatrix=build_scatter)
             ctx.case(("creator", li, ci), nontrivial=bool(eff))
@@ -1957,6 +1957,72 @@ def reuse_sequence(libid, blocks, how, sink, pending=None):
              dict(libid, blocks=[[c, s] for c, s in blocks], how=how, suffix=blocks[-1][1], composition=blocks[-1][0]), "arrays changed", None)
 
 
+def blocklist_sets(rng, names, sufs):
+    """block lists whose blocks hold DIFFERENT nuclide sets: first block the smallest / the largest / disjoint from the
+    others / nested chains / identical sets, XS IDs alternating or all the same"""
+    def comp_of(ns):
+        c = {nm: dy(rng, 0, 4, 4) for nm in ns}
+        c[rng.choice(list(c))] = dy(rng, 1, 4, 4) / 4
+        return c
+    names = list(names)
+    out = []
+    for shape in ("first-smallest", "first-largest", "disjoint", "nested", "identical"):
+        k = rng.randint(2, 4)
+        if shape == "first-smallest":
+            sets = [names[:1]] + [rng.sample(names, rng.randint(1, len(names))) for _ in range(k - 1)] + [names]
+        elif shape == "first-largest":
+            sets = [names] + [rng.sample(names, rng.randint(1, max(1, len(names) - 1))) for _ in range(k - 1)]
+        elif shape == "disjoint":
+            sh = rng.sample(names, len(names))
+            cut = max(1, len(sh) // 2)
+            sets = [sh[:cut], sh[cut:] or sh[:1], sh[:cut]]
+        elif shape == "nested":
+            sets = [names[:i] for i in range(1, len(names) + 1)][:5]
+        else:
+            sets = [names] * k
+        same = rng.random() < 0.4
+        start = rng.randrange(len(sufs))
+        out.append((shape, [(comp_of(ns), sufs[start] if same else sufs[(start + i) % len(sufs)]) for i, ns in enumerate(sets)]))
+    return out
+
+
+def blocklist_check(libid, blocks, nuc_names, lib_type, sink):
+    """createMacrosOnBlocklist(lib, blocks, nucNames, libType): every block's macros are what a FRESH creator gives for that
+    block alone, and that is the density-weighted sum over the block's own effective composition"""
+    from armi.nuclearDataIO import xsCollections as xc
+    lib, ref = macro_libs(libid)
+    fp0 = micro_fingerprint(ref)
+    stubs = [StubBlock(c, s) for c, s in blocks]
+    res = call(xc.MacroscopicCrossSectionCreator().createMacrosOnBlocklist, lib, stubs, nuc_names, libType=lib_type)
+    ng = ref.numGroups
+    groups = ng if lib_type == "micros" else ref.numGroupsGamma
+    freshes = []
+    for i, (comp, suf) in enumerate(blocks):
+        case = dict(libid, blocks=[[c, s] for c, s in blocks], index=i, how="blocklist", suffix=suf, composition=comp,
+                    nucNames=nuc_names, libType=lib_type, function="createMacrosOnBlocklist")
+        lib2, ref2 = macro_libs(libid)
+        fresh, fails = creator_clauses(lib2, ref2, suf, comp, lib_type, nuc_names, 0.0, True, ng, groups, case)
+        for f in fails:
+            sink(*f)
+        freshes.append((fresh, case))
+    if res[0] != "ok":
+        # the list call may only fail when some block of the list fails on its own (e.g. an empty effective composition)
+        if all(f[0] == "ok" for f, _c in freshes):
+            sink("creator-rejects-valid-composition", "macros exist for every block of a list fully covered by the library",
+                 freshes[0][1], str(res[1]), None)
+        return
+    for i, (fresh, case) in enumerate(freshes):
+        if fresh[0] != "ok":
+            continue
+        diff = same_macros(stubs[i].macros, fresh[1])
+        if diff:
+            sink("creator-reuse-differs-from-fresh-creator",
+                 "createMacrosOnBlocklist gives every block what createMacrosFromMicros gives for that block alone", case, diff, None)
+    if micro_fingerprint(lib) != fp0:
+        sink("macro-creation-mutates-microscopic-data", "computing macroscopic constants never changes the library's microscopic data",
+             dict(libid, blocks=[[c, s] for c, s in blocks], how="blocklist", suffix=blocks[-1][1], composition=blocks[-1][0]), "arrays changed", None)
+
+
 def run_reuse(ctx):
     """creator reuse across XS IDs (createMacrosOnBlocklist / a generator looping over blocks)"""
     rng = ctx.rng
@@ -1980,6 +2046,8 @@ def run_reuse(ctx):
             sc, _, _, _ = gen_macro_lib(rng, ctx, names=names, suf="BA", ng=ng)
             sc["nucs"] = [x for x in sc["nucs"] if not x[0].endswith("QQ")]
             specs.append(sc)
+        for spec in specs:
+            add_gamma_collections(rng, spec, ng)
         jobs.append({"merged_libs": specs})
     for libid in jobs:
         if "merged_fixtures" in libid:
@@ -2001,6 +2069,15 @@ def run_reuse(ctx):
                 reuse_sequence(libid, order, how, sink, pending if small else None)
                 ctx.case(("reuse", json.dumps([b[1] for b in order]), how, hash(json.dumps(libid, sort_keys=True, default=str))))
                 ctx.count(f"creator reused over {len(order)} blocks ({how})")
+        # block-list API over blocks with DIFFERENT nuclide sets, nucNames defaulted or given, neutron or gamma
+        if "merged_libs" in libid:
+            for shape, blocks in rng.sample(blocklist_sets(rng, names, sufs), ctx.pick(2, 5)):
+                r = rng.random()
+                nuc_names = None if r < 0.6 else rng.sample(names, rng.randint(1, len(names)))
+                lib_type = "micros" if rng.random() < 0.7 else "gammaXS"
+                blocklist_check(libid, blocks, nuc_names, lib_type, sink)
+                ctx.case(("blocklist", shape, json.dumps(blocks, sort_keys=True), json.dumps(nuc_names), lib_type))
+                ctx.count(f"block list ({shape}), nucNames={'default' if nuc_names is None else 'given'}, {lib_type}")
     if pending:
         model = lean_run("XsLib", [p[0] for p in pending])
         for (rq, what, case, res), ml in zip(pending, model):
@@ -2538,6 +2615,13 @@ def replay(ctx, payload):
         orders = list(itertools.permutations(range(len(names)))) if "order-dependent" in key else [tuple(range(len(names)))]
         chi_oracle(type(ctx)(ctx.prop, "quick", ctx.seed), chi_fixture if fixtures else build, names, orders,
                    lambda k, cl, c, o, e: hits.append({"key": k, "clause": cl, "observed": o}), roundtrip=fixtures)
+        hit = [h for h in hits if h["key"] == key]
+        return hit[0] if hit else None
+    if isinstance(case, dict) and "blocks" in case and case.get("function") == "createMacrosOnBlocklist":
+        hits = []
+        libid = {k: case[k] for k in ("merged_libs", "merged_fixtures", "scale") if k in case}
+        blocklist_check(libid, [(c, sfx) for c, sfx in case["blocks"]], case.get("nucNames"), case.get("libType", "micros"),
+                        lambda k, cl, c, o, e: hits.append({"key": k, "clause": cl, "observed": o}))
         hit = [h for h in hits if h["key"] == key]
         return hit[0] if hit else None
     if isinstance(case, dict) and "blocks" in case:
